@@ -33,9 +33,13 @@ def felt_glue_scen(n, tag=''):
                 return Seq('vec', ())
             return UNIT
         return f
+    overridden = [m for m in ('fft', 'ifft', 'split_fft', 'merge_fft') if '<Felt as CyclotomicFourier>::' + m in P.by_key]
     for mname in ('fft', 'ifft', 'split_fft', 'merge_fft'):
-        ex.over['CyclotomicFourier::' + mname] = rec(mname)
+        if mname not in overridden:
+            ex.over['CyclotomicFourier::' + mname] = rec(mname)
     xs = [Agg('Felt', None, (ex.new_input('a%d' % i, 'u32'),)) for i in range(n)]
+    for x in xs:
+        ex.assume(z3.ULT(x.f[0].t, Q))
     poly = Agg('Polynomial', None, (Seq('vec', xs),))
     res = {'n': n, 'calls': [], 'panics': []}
     for meth in ('fft_inplace', 'ifft_inplace', 'split_fft', 'merge_fft'):
@@ -53,6 +57,8 @@ def felt_glue_scen(n, tag=''):
         ex.explore(st)
         res['calls'].append((meth, [(nm, ln, [(k, (v if k == 'felt' else v)) for k, v in tabs]) for nm, ln, tabs in log]))
         res['panics'].append((meth, [p['msg'] for p in ex.panics]))
+        res.setdefault('panic_models', []).extend((meth, p['msg'], p['site'], [(p['inputs'] or {}).get('a%d' % i, 0) for i in range(n)]) for p in ex.panics[:2] if p['kind'] == 'assert' or True)
+    res['overridden'] = overridden
     res['paths'] = ex.paths; res['queries'] = ex.nq; res['solver_s'] = ex.solver_s; res['steps'] = ex.steps
     res['mir_hash'] = {m: P.by_key['<Polynomial<Felt> as FastFft>::' + m].hash for m in ('fft_inplace', 'ifft_inplace', 'split_fft', 'merge_fft')}
     return res
@@ -63,6 +69,7 @@ def run(rep, tier, field):
     bad = []
     checks = 0
     psi = None
+    override_findings = []
     for n in [1 << k for k in range(11)] + [3, 6, 1000]:
         r = felt_glue_scen(n)
         rep.states += r['paths']; rep.transitions += r['steps']; rep.queries += r['queries']
@@ -73,6 +80,13 @@ def run(rep, tier, field):
         for meth, want_generic, tabidx in (('fft_inplace', 'fft', 'fwd'), ('ifft_inplace', 'ifft', 'inv'), ('split_fft', 'split_fft', 'inv'), ('merge_fft', 'merge_fft', 'fwd')):
             c = calls[meth]
             checks += 1
+            if want_generic in r.get('overridden', []):
+                # Felt has its own implementation of this butterfly: the generic code (engine S) does not speak for it. Its real MIR was
+                # executed on symbolic canonical inputs: every arithmetic / index obligation must hold
+                for (m2, msg, site, vec) in r.get('panic_models', []):
+                    if m2 == meth and pow2:
+                        override_findings.append((n, meth, want_generic, msg, site, vec))
+                continue
             if meth == 'ifft_inplace' and not pow2:
                 if not panics[meth]:
                     bad.append('ifft_inplace on length %d does not panic (would silently mis-scale)' % n)
@@ -94,6 +108,20 @@ def run(rep, tier, field):
                     bad.append('ifft_inplace (n=%d) scales by %s, which is not n^-1 mod q' % (n, fel[-1] if fel else None))
     rep.oblige(checks - len(bad)); rep.oblige(len(bad), ok=False)
     rep.parts['glue_checks'] = checks
+    if override_findings:
+        from .. import replay
+        rep.oblige(len(override_findings), ok=False)
+        done = False
+        for n, meth, gen, msg, site, vec in override_findings:
+            arg = ','.join(map(str, vec))
+            cmd = {'ifft': 'ntt_inv', 'fft': 'ntt_fwd'}.get(gen, 'ntt_split_merge')
+            dev, rel = replay.both([cmd, arg]); rep.replayed += 1
+            if dev.startswith('PANIC') or rel.startswith('PANIC'):
+                rep.violation('ntt-override:panic', 'Felt\'s own %s (overriding the generic butterflies) violates an obligation at n=%d: %s at %s; natively %s(%s...) -> %s'
+                              % (gen, n, msg, site, cmd, arg[:60], dev if dev.startswith('PANIC') else rel), {'replay_request': [cmd, arg], 'dev': dev[:120], 'release': rel[:120]})
+                done = True; break
+        if not done:
+            rep.note_inconclusive('obligations of a type-specific %s are violable (%s) but did not reproduce natively' % (override_findings[0][2], override_findings[0][3]))
     rep.sample({'engine': 'M', 'glue': 'Polynomial<Felt>::ifft_inplace for n=512 passes the inverse table and FELT_NINV_512', 'ok': not bad})
     for b in bad[:3]:
         # natively: a wrong table / constant shows as a failed round trip or product at that length
